@@ -74,12 +74,15 @@ def expand(crate):
 
 
 # --------------------------------------------------------------------------- assemble + verify
-def assemble(unit):
+def assemble(unit, probe=False):
     u = UNITS[unit]
-    out = os.path.join(WORK, unit + ".rs")
-    mp = os.path.join(WORK, unit + ".map.json")
+    sfx = "_probe" if probe else ""
+    out = os.path.join(WORK, unit + sfx + ".rs")
+    mp = os.path.join(WORK, unit + sfx + ".map.json")
+    env = dict(os.environ)
+    env["ZX_PROBE"] = "1" if probe else "0"
     rc, so, se, dt = run([ZX, "assemble", "--repo", REPO, "--exp", EXP, "--template",
-                          os.path.join(ROOT, "spec", "units", u["template"]), "--out", out, "--map", mp])
+                          os.path.join(ROOT, "spec", "units", u["template"]), "--out", out, "--map", mp], env=env)
     if rc != 0:
         m = re.search(r"ZX-ERROR kind=(\S+) (.*)", so)
         if m:
@@ -213,6 +216,10 @@ def verify_unit(unit, tier):
     t0 = time.time()
     path, mp = assemble(unit)
     arg_sets = UNITS[unit].get("verus_arg_sets") or [UNITS[unit].get("verus_args") or []]
+    if tier == "thorough":
+        # proof stability: the same obligations under a different solver seed (an obligation still counts as discharged if any
+        # run discharges it; the ones that flip are listed in the evidence as unstable)
+        arg_sets = list(arg_sets) + [list(arg_sets[0]) + ["--smt-option", "smt.random_seed=7"]]
 
     def one(extra, rlimit=None):
         rc, j, diags, raw, dt, cmd = verus(path, rlimit=rlimit, extra=list(extra))
@@ -270,10 +277,46 @@ def verify_unit(unit, tier):
             for fb in m.get("function-breakdown", []):
                 funcs.append({"function": fb["function"], "ms": round(fb.get("time-micros", 0) / 1000.0, 2),
                               "rlimit": fb.get("rlimit"), "success": fb.get("success")})
-    return {"unit": unit, "path": path, "map": mp, "fails": fails, "undecided": undec, "verified": max(r["j"].get("verification-results", {}).get("verified", 0) for r in runs),
+    unstable = sorted(rid for rid, fl in fail_by_rid.items() if rid != "spec:canary" and 0 < sum(1 for r in runs if any(f["rid"] == rid for f in r["fails"])) < nruns)
+    probes = None
+    if tier == "thorough":
+        probes = probe_unit(unit, arg_sets[0])
+    return {"unit": unit, "path": path, "map": mp, "probes": probes, "unstable": unstable, "fails": fails, "undecided": undec, "verified": max(r["j"].get("verification-results", {}).get("verified", 0) for r in runs),
             "errors": res.get("errors", 0), "functions": funcs, "cmd": " ; ".join(r["cmd"] for r in runs), "wall": time.time() - t0,
             "attempts": attempts, "sha": hashlib.sha256(open(path, "rb").read()).hexdigest()[:16],
             "vir_error": any(r["j"].get("verification-results", {}).get("encountered-vir-error", False) for r in runs)}
+
+
+def probe_unit(unit, extra):
+    """Thorough tier: vacuity guard behind every contract. The unit is assembled once more with `assert(false)` at every
+    function entry and at the start of every loop body; each of these must be REFUTED by Verus. A probe that is not refuted
+    means the function's preconditions (or the loop's invariants and guard) are contradictory: everything proved there
+    would be vacuous."""
+    path, mp = assemble(unit, probe=True)
+    ex = [a for a in extra if a != "--rlimit" and not a.isdigit()]
+    rc, j, diags, raw, dt, cmd = verus(path, rlimit=60, extra=ex)
+    if j is None:
+        raise Undecided("verus produced no JSON for the probe run of unit %s: %s" % (unit, raw[-300:]))
+    plist = [r for r in mp["regions"] if r["kind"] == "probe"]
+    refuted, budget_items = set(), set()
+    for d in diags:
+        if d.get("level") != "error":
+            continue
+        msg = d.get("message", "")
+        for sp in d.get("spans", []):
+            rg = region_of(mp, sp["line_start"])
+            if rg is None:
+                continue
+            if "Resource limit" in msg or "rlimit" in msg:
+                budget_items.add(rg.get("item"))
+            elif rg["kind"] == "probe" and "assertion failed" in msg:
+                refuted.add(rg["start"])
+        if d.get("code") is not None:
+            raise Undecided("probe run of unit %s does not compile: %s" % (unit, msg.splitlines()[0][:200]))
+    not_refuted = [(r["item"], "%s, line %d of the probe file" % (r["clause"], r["start"])) for r in plist if r["start"] not in refuted and r["item"] not in budget_items]
+    inconclusive = [(r["item"], r["clause"]) for r in plist if r["start"] not in refuted and r["item"] in budget_items]
+    return {"unit": unit, "probes": len(plist), "refuted": len(refuted), "not_refuted": not_refuted, "inconclusive": inconclusive,
+            "cmd": cmd, "wall": round(dt, 2)}
 
 
 # --------------------------------------------------------------------------- trust scan
@@ -423,6 +466,13 @@ def check_one(pid, tier):
         if r["vir_error"]:
             undec_reasons.append("%s: verus reported a VIR error" % r["unit"])
 
+    probe_summary = []
+    for r in results:
+        pr = r.get("probes")
+        if pr:
+            probe_summary.append({k: pr[k] for k in ("unit", "probes", "refuted", "inconclusive", "wall")})
+            for it, cl in pr["not_refuted"]:
+                undec_reasons.append("%s: vacuity probe not refuted at %s (%s): its contract is contradictory" % (r["unit"], it, cl))
     hard = [u for u in undec_reasons if "supporting obligation" not in u]
     if hard:
         return undecided("; ".join(hard)[:600])
@@ -478,6 +528,8 @@ def check_one(pid, tier):
             "explanation": cfg.get("scope", ""),
             "exhaustive": False,
             "failures_tagged_with_other_properties": ["%s/%s" % x for x in foreign_fail],
+            "reachability_probes": probe_summary,
+            "obligations_that_flip_between_solver_configurations": sorted({x for r in results for x in r.get("unstable", [])}),
         },
         "assumptions": cfg.get("assumptions", []),
         "wall_s": round(time.time() - t0, 2),
